@@ -4,6 +4,6 @@ cd "$(dirname "$0")/.." || exit 2
 for c in C20 C19 C10 C03 C02 C14 C17 C05 C12 C07 C11 C06 C04 C18 C13 C08 C15 C01 C09 C16; do
   echo "=== $c thorough $(date +%H:%M:%S)"
   out=$(./check $c thorough 2>&1); rc=$?
-  printf '%s\n' "$out" | grep -E "^\[C|VIOLATION|MACHINERY|KNOWN" | cut -c1-400
+  printf '%s\n' "$out" | grep -A14 -E "^\[C|VIOLATION|MACHINERY|KNOWN|NOTE" | cut -c1-400
   echo "exit=$rc"
 done
